@@ -15,8 +15,8 @@ Legs:
              evaluates the very term of the zero-sum theorems of Props/C05b.lean, which must be exactly 0.
   sim      : Diffusion and Cahn-Hilliard runs with every solver (fixed and adaptive), integral recorded
              after every step; numba kernels with source semantics for breadth and JIT for a subset.
-  run      : correspondence of the run theorems (Props/C05d.lean): diffusion / Cahn-Hilliard runs with the fixed-step Euler and
-             Runge-Kutta solvers on all grid classes; the driver handler `c05.run` evaluates `cellRuns (validCells shape) scheme
+  run      : correspondence of the run theorems (Props/C05d.lean): diffusion / Cahn-Hilliard runs with the fixed-step Euler,
+             Runge-Kutta, implicit Euler and Crank-Nicolson solvers on all grid classes; the driver handler `c05.run` evaluates `solverRuns (validCells shape) solver
              (consRate ...)` (Model/ConserveRun.lean: the controller loop around Solvers.fixedStepper around Solvers.eulerStep / rk4Step at the padded-array
              type) over exact rationals -> final `state.data`, step count, returned time and the conserved total must agree
              with `eq.solve(...)`, and the model total before/after must be exactly equal."""
@@ -64,13 +64,14 @@ REQUIRED_THEOREMS = [
     "cart1Rate_conserving", "cart2Rate_conserving", "cart3Rate_conserving", "polarRate_conserving", "sphRate_conserving",
     "cylRate_conserving", "polar_euler_run_conserves",
     # Props/C05d.lean: whole runs of the model the driver evaluates (c05.run), divergence flux identities
-    "wholeStep_euler", "wholeStep_rk4", "cellStep_conserves", "cellRun_conserves", "cellRuns_conserves", "cellSteps_conserve",
+    "wholeStep_euler", "wholeStep_rk4", "cellStep_conserves", "fixpointLoop_invariant", "cellImplicitStep_conserves", "cellCNStep_conserves",
+    "solverStep_conserves", "solverRun_conserves", "solverRuns_conserves", "cellSteps_conserve",
     "cart1_run_conserves", "cart2_run_conserves", "cart3_run_conserves", "polar_run_conserves", "sph_run_conserves",
     "cyl_run_conserves",
     "d1_fun_sum_flux", "faceFlux_zero", "cart2_divergence_sum", "cart3_divergence_sum",
     "cyl_divergence_sum", "cyl_divergence_defect", "cyl_divergence_not_conservative",
 ]
-MIN_LEGS = {"run": 24}
+MIN_LEGS = {"run": 29}
 RULE = ("integral leg: seed-derived grids of all classes, integer field data, one random condition per side of any class "
         "(value, derivative, mixed, curvature, expressions, periodic; homogeneous and inhomogeneous) so that the integral is "
         "generally non-zero; zero leg: conserving conditions with random real data (also in the stale ghost cells) on all classes "
@@ -297,7 +298,8 @@ def run_case(arg):
     import pde
 
     logging.getLogger("pde").setLevel(logging.ERROR)
-    gd, eqname, coef, solver, backend, dt, ts, te, data = arg
+    gd, eqname, coef, solver, backend, dt, ts, te, data = arg[:9]
+    skw = arg[9] if len(arg) > 9 else {}
     grid = c02.make_grid(gd)
     state = pde.ScalarField(grid, np.array(data, dtype=float).reshape(grid.shape))
     if eqname == "diffusion":
@@ -308,7 +310,7 @@ def run_case(arg):
     sc0 = float(np.sum(grid.cell_volumes * np.abs(state.data)))
     try:
         res, info = eq.solve(state, t_range=(ts, te) if ts else te, dt=dt, solver=solver, backend=backend, tracker=None,
-                             adaptive=False, ret_info=True)
+                             ret_info=True, **(skw or {"adaptive": False}))
     except Exception as e:  # noqa
         return {"error": f"{type(e).__name__}: {e}"}
     return {"data": [float(x) for x in res.data.ravel()], "steps": int(info["solver"]["steps"]),
@@ -328,7 +330,13 @@ RUN_STRATA = [  # (class, axes, scheme, equation, largest number of cells per ax
     ("polar", 1, "euler", "diffusion", 6, 5), ("polar", 1, "rk4", "diffusion", 5, 2), ("polar", 1, "euler", "cahn-hilliard", 5, 3),
     ("sph", 1, "euler", "diffusion", 6, 5), ("sph", 1, "rk4", "diffusion", 5, 2), ("sph", 1, "euler", "cahn-hilliard", 5, 3),
     ("cyl", 2, "euler", "diffusion", 4, 4), ("cyl", 2, "rk4", "diffusion", 3, 2), ("cyl", 2, "euler", "cahn-hilliard", 3, 2),
+    # implicit Euler and Crank-Nicolson (fixed-point iterations; linear equation: exact rationals stay small)
+    ("cart", 1, "implicit", "diffusion", 5, 3), ("cart", 2, "implicit", "diffusion", 3, 2), ("cart", 3, "crank-nicolson", "diffusion", 2, 2),
+    ("cart", 1, "crank-nicolson", "diffusion", 5, 3), ("cart", 2, "crank-nicolson", "diffusion", 3, 2),
+    ("polar", 1, "implicit", "diffusion", 5, 2), ("sph", 1, "crank-nicolson", "diffusion", 5, 2), ("sph", 1, "implicit", "diffusion", 4, 2),
+    ("polar", 1, "crank-nicolson", "diffusion", 4, 2), ("cyl", 2, "implicit", "diffusion", 3, 2), ("cyl", 2, "crank-nicolson", "diffusion", 3, 2),
 ]
+RUN_SOLVER = {"euler": "euler", "rk4": "runge-kutta", "implicit": "implicit", "crank-nicolson": "crank-nicolson"}
 RUN_CLS = {"cart": "CartesianGrid", "polar": "PolarSymGrid", "sph": "SphericalSymGrid", "cyl": "CylindricalSymGrid"}
 
 
@@ -342,6 +350,12 @@ def gen_run(rng, stratum):
         per = [False]
     gd = {"cls": RUN_CLS[cls], "shape": shape, "bounds": [[l, l + d * n] for l, d, n in zip(lo, dxs, shape)], "periodic": per}
     dt = rng.choice([1 / 64, 1 / 128, 3 / 256]) if eqname == "diffusion" else rng.choice([1 / 1024, 1 / 2048])
+    skw = {}
+    if scheme in ("implicit", "crank-nicolson"):  # documented solver options; small steps so that the iteration contracts (mostly)
+        dt = rng.choice([1 / 512, 1 / 1024, 1 / 256])
+        skw = {"maxiter": rng.choice([100, 100, 6, 3]), "maxerror": rng.choice([2.0 ** -10, 2.0 ** -14, 2.0 ** -20])}
+        if scheme == "crank-nicolson":
+            skw["explicit_fraction"] = rng.choice([0, 0, 0.25, 0.5])
     steps = rng.randint(1, smax)
     # the end time is a multiple of dt, or off by a quarter / a half step (the step count is a rounding: ties to even)
     off = rng.choice([0, 0, 0.25, -0.25, 0.5]) if steps > 1 else rng.choice([0, 0.25, -0.5])
@@ -350,15 +364,19 @@ def gen_run(rng, stratum):
     coef = rng.choice([0.5, 1.0, 0.25, 1.5])
     data = [rng.randint(-12, 12) / 4 for _ in range(int(np.prod(shape)))]
     return {"grid": gd, "eq": eqname, "coef": coef, "scheme": scheme, "dt": dt, "ts": ts, "te": te, "data": data,
-            "backend": rng.choice(["numpy", "numba"])}
+            "backend": rng.choice(["numpy", "numba"]), "solver_options": skw}
 
 
 def run_request(c):
     gd = c["grid"]
     dxs = [Fraction(b[1] - b[0]) / n for b, n in zip(gd["bounds"], gd["shape"])]
-    return {"cls": CLS[gd["cls"]], "shape": gd["shape"], "lo": [q(b[0]) for b in gd["bounds"]], "dx": [q(d) for d in dxs],
-            "per": [bool(p) for p in gd["periodic"]], "scheme": c["scheme"], "eq": c["eq"], "coef": q(c["coef"]),
-            "dt": q(c["dt"]), "ts": q(c["ts"]), "te": q(c["te"]), "data": [q(x) for x in c["data"]]}
+    req = {"cls": CLS[gd["cls"]], "shape": gd["shape"], "lo": [q(b[0]) for b in gd["bounds"]], "dx": [q(d) for d in dxs],
+           "per": [bool(p) for p in gd["periodic"]], "scheme": c["scheme"], "eq": c["eq"], "coef": q(c["coef"]),
+           "dt": q(c["dt"]), "ts": q(c["ts"]), "te": q(c["te"]), "data": [q(x) for x in c["data"]]}
+    skw = c.get("solver_options") or {}
+    if skw:
+        req.update({"maxiter": skw["maxiter"], "maxerror": q(skw["maxerror"]), "alpha": q(skw.get("explicit_fraction", 0))})
+    return req
 
 
 def run_leg(ctx):
@@ -366,7 +384,7 @@ def run_leg(ctx):
     from harness.common.lean import LeanBatch
 
     rng = ctx.rng
-    n_run = ctx.budget(36, 180)
+    n_run = ctx.budget(58, 232)
     cases = []
     while len(cases) < n_run:
         for st in RUN_STRATA:
@@ -374,8 +392,9 @@ def run_leg(ctx):
     batch = LeanBatch(ctx.workdir)
     ids = [batch.add("c05.run", run_request(c)) for c, _ in cases]
     answers = batch.run()
-    solver_name = {"euler": "euler", "rk4": "runge-kutta"}
-    args = [(c["grid"], c["eq"], c["coef"], solver_name[c["scheme"]], c["backend"], c["dt"], c["ts"], c["te"], c["data"]) for c, _ in cases]
+    solver_name = RUN_SOLVER
+    args = [(c["grid"], c["eq"], c["coef"], solver_name[c["scheme"]], c["backend"], c["dt"], c["ts"], c["te"], c["data"], c["solver_options"])
+            for c, _ in cases]
     res = run_many("harness.c05", "run_case", args, env={"NUMBA_DISABLE_JIT": "1"}, procs=16)
     n_j = ctx.budget(3, 16)
     jit_ids = sorted(rng.sample(range(len(cases)), min(n_j, len(cases))))
@@ -391,9 +410,15 @@ def run_leg(ctx):
                 continue
             key = dict(c, mode=mode)
             ctx.impl_traces += 1
+            if not isinstance(rr, str) and "error" in rr and "ConvergenceError" in rr["error"]:
+                ctx.hist("run-outcome", f"{c['scheme']}: ConvergenceError")
+                if st == "ok":
+                    ctx.disagree("run:convergence", key, "converges", rr["error"], "the real solver raised a ConvergenceError, the model's fixed-point loop returned")
+                continue
             if isinstance(rr, str) or "error" in rr:
                 ctx.disagree("run", key, "runs", rr if isinstance(rr, str) else rr["error"], "real run failed")
                 continue
+            ctx.hist("run-outcome", f"{c['scheme']}: ok")
             ctx.monitor_evals += 1
             if not judge_run(rr):
                 ctx.monitor_fail("run", key, {"initial": rr["i0"], "final": rr["i1"], "scale": rr["scale"]}, "integral after the run = initial integral",
@@ -404,13 +429,13 @@ def run_leg(ctx):
                 continue
             ctx.hist("run-steps", str(rr["steps"]))
             if int(ans["steps"]) != rr["steps"]:
-                ctx.disagree("run:steps", key, ans["steps"], rr["steps"], "total number of steps differs from cellRuns (stepCount per stepper call)")
+                ctx.disagree("run:steps", key, ans["steps"], rr["steps"], "total number of steps differs from solverRuns (stepCount per stepper call)")
                 continue
             model = np.array([float(unq(x)) for x in ans["state"]])
             real = np.array(rr["data"])
             scale = 1.0 + float(np.abs(real).max()) + float(np.abs(model).max())
             if model.shape != real.shape or not np.all(np.abs(model - real) <= 1e-10 * scale):
-                ctx.disagree("run:state", key, [float(x) for x in model], rr["data"], "state after the run differs from cellRuns")
+                ctx.disagree("run:state", key, [float(x) for x in model], rr["data"], "state after the run differs from solverRuns")
             if abs(float(unq(ans["t"])) - rr["t"]) > 1e-12 * (1 + abs(rr["t"])):
                 ctx.disagree("run:time", key, ans["t"], rr["t"], "returned time differs")
             pi = math.pi ** pi_power(cls)
@@ -674,8 +699,9 @@ def replay(ctx, rep):
         dev, bad, sc, judged = judge_sim(rr)
         return not bad and len(rr["rec"]) >= 2
     if rep["leg"] == "run":
-        rr = run_one("harness.c05", "run_case", (c["grid"], c["eq"], c["coef"], {"euler": "euler", "rk4": "runge-kutta"}[c["scheme"]],
-                                                 "numba" if c.get("mode") == "jit" else c["backend"], c["dt"], c["ts"], c["te"], c["data"]),
+        rr = run_one("harness.c05", "run_case", (c["grid"], c["eq"], c["coef"], RUN_SOLVER[c["scheme"]],
+                                                 "numba" if c.get("mode") == "jit" else c["backend"], c["dt"], c["ts"], c["te"], c["data"],
+                                                 c.get("solver_options", {})),
                      env={"NUMBA_DISABLE_JIT": "0" if c.get("mode") == "jit" else "1"})
         print(rr)
         if isinstance(rr, str) or "error" in rr:
